@@ -50,6 +50,23 @@ func runC18(c *Check, tier string) {
 	ruleSemaphorePairing(c, "R18h")
 	ruleQueueDrained(c, "R18i")
 	rulePipeErrorPropagated(c, "R18j")
+	ruleR18k(c)
+}
+
+// R18k: exec.CommandContext kills the child when the context is cancelled unless Cmd.Cancel is replaced. The
+// walk returns and the process exits at once on an interrupt, so nothing would escalate a gentler signal.
+func ruleR18k(c *Check) {
+	c.Rule("R18k", "no first-party code assigns exec.Cmd.Cancel (the default of CommandContext, Process.Kill, is what ends a target's shell on interrupt, fail-fast and timeout)", 1)
+	n := 0
+	for _, e := range c.G.In[engine.FieldKey{T: "os/exec.Cmd", F: "Cancel"}] {
+		if st, ok := e.Via.(*ssa.Store); ok && e.Kind == engine.EStore {
+			n++
+			c.Bad("R18k", "command-killed-on-cancel/"+c.P.FuncName(st.Parent()), "exec.Cmd.Cancel is replaced: on cancellation the child is no longer killed outright. grog returns from the walk and exits immediately after an interrupt, so a shell that traps or ignores the gentler signal outlives grog and keeps writing into the workspace", c.P.InstrPos(st))
+		}
+	}
+	if n == 0 {
+		c.OK("R18k", "command-killed-on-cancel", "Cmd.Cancel is never assigned: cancelled commands are killed", "-")
+	}
 }
 
 // ruleQueueDrained (shared with C04): the package loader's workers consume a bounded queue that the file
